@@ -7,6 +7,13 @@ A_EXTRACT = ('A-EXTRACT: Verus sees the verbatim text of each function extracted
              'after the declared rewrites listed per function under functions_under_contract[].rewrites')
 
 PROPS = {
+    'C14': dict(
+        level='proof', verus=['c14_writers'],
+        trusted_base=[A_TOOLS, A_EXTRACT, 'A-IO: verus/prelude/io.rs states the documented std::io::Write contract (write accepts n<=len bytes or fails having accepted none; write_all appends all or fails having appended a prefix)',
+                      'A-LEAF-LINK: BeBytes contract == std to_be_bytes, proved for all values by Kani k_be_link'],
+        assumptions=['Error conversions performed by `?` are abstracted to one enum (R4): no effect on control flow'],
+        explanation='For ANY sink obeying the Write contract (universally quantified VWrite), every serialiser (intro, index entry, header, signature header + padding, lead, metadata, package) returns Ok only after the sink accepted exactly the canonical bytes and Err only after a prefix of them; proved on the verbatim bodies, unbounded in entries/store/payload.',
+    ),
     'C16': dict(
         level='proof', verus=['c16_offsets'],
         trusted_base=[A_TOOLS, A_EXTRACT, 'hand-written spec vocabulary verus/prelude/{serspec,hdrspec}.rs (definitions only)'],
